@@ -118,3 +118,21 @@ def _k02(prop, failure):
         elif k in seen_valid:
             pending.add(k)
     return False
+
+
+@predicate("cumsum_noskip_timedelta_nat")
+def _k04(prop, failure):
+    """cumsum(skip_na=False) of timedelta values: the running sum is integer arithmetic on the NaT
+    sentinel, so from a group's first NaT on the result is a wrapped number instead of NaT."""
+    from . import gen
+
+    case = failure.get("case") or {}
+    if not failure.get("monitor", "").endswith(".value") or case.get("op") != "cumsum":
+        return False
+    if (case.get("params") or {}).get("skip_na", True) is not False:
+        return False
+    if not case["val"]["dtype"].startswith("timedelta64"):
+        return False
+    lk = gen.logical_keys(case["keys"])
+    selb = gen.mask_as_bool(case.get("mask"), case["n"])
+    return any(v is None and k is not None and selb[i] for i, (k, v) in enumerate(zip(lk, case["val"]["vals"])))
